@@ -151,6 +151,9 @@ def sql_text(q, style):
         return "WITH %s SELECT * FROM q" % ", ".join(ctes)
     if style == "cte":
         return "WITH q AS (%s) SELECT * FROM q" % core
+    if style == "cte_shadow":
+        # the CTE carries the name of the model it reads (its body is still the semantic query; the outer SELECT reads the CTE)
+        return "WITH %s AS (%s) SELECT * FROM %s" % (table, core, table)
     if style == "subselect":
         return "SELECT * FROM (%s) AS q" % core
     return core
@@ -193,6 +196,12 @@ def real_extract(L, text):
                                          ",".join("%s=%s" % kv for kv in al.items()))
 
 
+SHADOWED = [
+    "WITH orders AS (SELECT status FROM orders_t WHERE amount > 3) SELECT status FROM orders",
+    "WITH customers AS (SELECT k, v FROM plain_t) SELECT v FROM customers",
+    "WITH orders AS (SELECT k AS status, v AS revenue FROM plain_t) SELECT status, revenue FROM orders",
+    "WITH orders AS (SELECT k AS n FROM plain_t WHERE k > 1), customers AS (SELECT v AS region FROM plain_t) SELECT n, region FROM orders, customers ORDER BY n, region",
+]
 MALFORMED = [
     ("SELECT orders.revenue, customers.region FROM orders JOIN customers ON orders.customer_id = customers.id", 'show (rewrite G (S [PCol (Some "orders") "revenue" None; PCol (Some "customers") "region" None] (FromTable "orders") true None [] None None false))'),
     ("SELECT SUM(amount) FROM orders", 'show (rewrite G (S [PFunc] (FromTable "orders") false None [] None None false))'),
@@ -273,7 +282,7 @@ def run(c):
             try:
                 res = L.sql(text)
                 got_cols = [d[0] for d in res.description]
-                got = dbutil.canon_rows(res.fetchall(), ordered and st not in ("cte", "subselect", "two_ctes", "two_ctes_rev"))
+                got = dbutil.canon_rows(res.fetchall(), ordered and st not in ("cte", "cte_shadow", "subselect", "two_ctes", "two_ctes_rev"))
                 err = None
             except Exception as e:
                 got_cols, got, err = None, None, e
@@ -281,7 +290,7 @@ def run(c):
             # renaming aliases back and putting the columns of both paths in one order
             rename = {a: f for m, f, a in q["fields"] if a}
             exp_names = sorted((a or f) for m, f, a in q["fields"])
-            ok = err is None and sorted(got_cols) == exp_names and aligned(got_cols, got, rename, ordered and st not in ("cte", "subselect", "two_ctes", "two_ctes_rev")) == aligned(want_cols, want, {}, ordered and st not in ("cte", "subselect", "two_ctes", "two_ctes_rev"))
+            ok = err is None and sorted(got_cols) == exp_names and aligned(got_cols, got, rename, ordered and st not in ("cte", "cte_shadow", "subselect", "two_ctes", "two_ctes_rev")) == aligned(want_cols, want, {}, ordered and st not in ("cte", "cte_shadow", "subselect", "two_ctes", "two_ctes_rev"))
             if ok:
                 nontrivial += len(want_rows) > 1
                 continue
@@ -341,6 +350,16 @@ def run(c):
             b = dbutil.canon_rows(L.conn.execute(text).fetchall())
             if a != b:
                 c.violation("SQL that references no semantic model does not return what the database returns for it", {"kind": "pass", "sql": text})
+    # plain SQL whose CTE happens to carry a model's name: the outer SELECT reads the CTE (SQL scoping), no semantic model is referenced
+    for text in SHADOWED:
+        stats["passthrough_checked"] += 1
+        try:
+            a = dbutil.canon_rows(L.sql(text).fetchall())
+        except Exception as e:
+            a = "error: %s" % str(e)[:150]
+        b = dbutil.canon_rows(L.conn.execute(text).fetchall())
+        if a != b:
+            c.violation("SQL over a CTE named like a model does not return what the database returns for it", {"kind": "pass", "sql": text, "layer": str(a)[:300], "database": str(b)[:300]})
     if outs is not None:
         c.obligation("correspondence: Model/Rewriter.rewrite == QueryRewriter on %d printed SELECTs" % len(terms), not fid_bad, "correspondence", json.dumps(fid_bad[:2], default=str)[:1800])
     c.obligation("oracle: layer.sql(text) == the structured query for every rendering; passthrough and rejection behave", not c.violations, "correspondence")
@@ -371,6 +390,8 @@ def unselected_where_column(q):
 
 def styles_for(q):
     st = ["qualified", "from_metrics", "cte", "subselect", "two_ctes", "two_ctes_rev"]
+    if q["fields"][0][0] != "metrics":
+        st += ["cte_shadow"]
     if q["single"]:
         st += ["unqualified"]
         if q["filters"]:
